@@ -230,6 +230,7 @@ func bindByType(n *Normer, fn *ssa.Function, roles ...roleSpec) bool {
 	var slots []*slot
 	for _, p := range fn.Params {
 		if st, ok := p.Type().Underlying().(*types.Struct); ok {
+			slots = append(slots, &slot{p, -1, p.Type(), false}) // the struct as a whole may be a role itself
 			for i := 0; i < st.NumFields(); i++ {
 				slots = append(slots, &slot{p, i, st.Field(i).Type(), false})
 			}
